@@ -34,7 +34,6 @@ TRUST = [
 ]
 
 KNOWN_GAP = {"class": "batch-dataframe-after-array-width"}
-HDM_FRAME = {"class": "hdm-array-reference-then-named-dataframe"}
 LAB = ("labels", "acc")
 D1 = ("li", "a1", "se")
 D2 = ("ne", "a2", "df")
@@ -712,14 +711,6 @@ def part_b(ctx, drv, only=None):
                 desc = case_desc(spec, calls, None, None, case_seed)
                 # every valid call must be accepted; all container assignments give the same trace
                 firstbad = next((i for i, t in enumerate(twin) if t[0] != "none"), None)
-                if (firstbad is not None and name.startswith(("HDDDM", "CDBD")) and calls[0][1][0].cont != "df"
-                        and any(c[1][0].cont == "df" for c in calls[:firstbad + 1])):
-                    # HistogramDensityMethod keeps its reference as a DataFrame labelled 0..w-1 when the reference came as an
-                    # array / list: a later DataFrame with real names is rejected (detect_batch=1) or mis-aligned by pd.concat
-                    report(ctx, signature=HDM_FRAME, what=name + ": reference set from an array/list, then a valid DataFrame update: " +
-                             twin[firstbad][0] + " at call %d" % firstbad, call_index=firstbad, containers=A, **desc)
-                    ctx.count("B:hdm-frame-finding:" + name)
-                    continue
                 if firstbad is not None:
                     report(ctx, signature={"class": "valid-rejected", "detector": name},
                              what="a valid call raised " + twin[firstbad][0], call_index=firstbad, **desc)
